@@ -7,6 +7,30 @@ import Verif.Model.StreamSrc
 namespace Verif.Drv.ExecCb
 open Verif.StreamSrc
 
+/-- `slab OPS…`: manual tasks on one executor — `sI` schedule, `cI` complete and wake, `wI` wake, `d` dispatch.  The
+    executor is a FIFO of runnables: scheduling queues the task, a wake queues a task that was polled, is not done and is
+    not queued; a dispatch polls the queued tasks in order and delivers those whose flag is set. -/
+structure Slab where
+  flags : List Nat := []
+  queued : List Nat := []
+  polled : List Nat := []
+  done : List Nat := []
+  out : List Nat := []
+
+def Slab.wake (s : Slab) (i : Nat) : Slab :=
+  if s.polled.contains i && !s.done.contains i && !s.queued.contains i then { s with queued := s.queued ++ [i] } else s
+
+def Slab.op (s : Slab) (o : String) : Slab :=
+  let i := (o.drop 1).toNat?.getD 0
+  match o.toList.head? with
+  | some 's' => { s with queued := s.queued ++ [i] }
+  | some 'c' => ({ s with flags := s.flags ++ [i] } : Slab).wake i
+  | some 'w' => s.wake i
+  | _ =>
+    s.queued.foldl (fun (s : Slab) i =>
+      if s.flags.contains i then { s with done := s.done ++ [i], out := s.out ++ [i] }
+      else { s with polled := s.polled ++ [i] }) { s with queued := [] }
+
 def step (line : String) : Option String :=
   match (line.splitOn " ").filter (· ≠ "") with
   | ["chain", n] =>
@@ -17,6 +41,9 @@ def step (line : String) : Option String :=
     -- and is delivered; a task scheduled afterwards is delivered too
     let n := n.toNat?.getD 0
     some s!"yield {n} delivered=[0,1]"
+  | "slab" :: ops =>
+    let s := ops.foldl Slab.op {}
+    some s!"slab delivered=[{",".intercalate (s.out.map toString)}] panicked=0"
   | ["stream", n, d] =>
     let n := n.toNat?.getD 0
     let d := d.toNat?.getD 0
